@@ -105,7 +105,10 @@ func buildNode(a atree, pool []condDef) (contactql.QueryNode, qtree) {
 	return contactql.NewBoolCombination(contactql.BoolOperator(a.T), ch...), q
 }
 
-var cChars = []string{"a", " ", ")", "(", "=", "é", "\n", "OR", "~", "'", "😀"}
+var cChars = []string{"a", " ", ")", "(", "=", "é", "\n", "OR", "~", "'", "😀",
+	// characters that resemble the grammar's own: typographic double quotes, a full-width quote, no-break space, a
+	// full-width equals sign, a right-to-left mark
+	"\u201d OR name != \u201c", "\u201c", "\u201e", "\uff02", "\u00a0", "\uff1d", "\u200f"}
 
 func concreteValue(classes []string, variant int) string {
 	var sb strings.Builder
